@@ -410,3 +410,35 @@ Definition enc_v1_tcp (fam : N) (src dst sport dport : bytes) : bytes :=
   pp_magic1 ++ [32] ++ s_TCP ++ [fam] ++ [32] ++ src ++ [32] ++ dst ++ [32] ++ sport ++ [32] ++ dport ++ [13; 10].
 Definition enc_v1_unknown (junk : bytes) : bytes :=
   pp_magic1 ++ [32] ++ s_UNKNOWN ++ junk ++ [13; 10].
+
+(* v2 address blocks, by family *)
+Inductive v2addr :=
+| A_inet (s d : bytes) (sp dp : N)      (* 4 + 4 raw address bytes, ports *)
+| A_inet6 (s d : bytes) (sp dp : N)     (* 16 + 16 raw address bytes, ports *)
+| A_unix (raw : bytes).                 (* 216 bytes, not interpreted by Squid *)
+Definition enc_v2_addr (a : v2addr) : bytes :=
+  match a with
+  | A_inet s d sp dp => s ++ d ++ u16be sp ++ u16be dp
+  | A_inet6 s d sp dp => s ++ d ++ u16be sp ++ u16be dp
+  | A_unix raw => raw
+  end.
+Definition v2addr_family (a : v2addr) : N :=
+  match a with A_inet _ _ _ _ => pp_afInet | A_inet6 _ _ _ _ => pp_afInet6 | A_unix _ => pp_afUnix end.
+Definition v2addr_wf (a : v2addr) : Prop :=
+  match a with
+  | A_inet s d sp dp => lenN s = 4 /\ lenN d = 4 /\ sp < 65536 /\ dp < 65536
+  | A_inet6 s d sp dp => lenN s = 16 /\ lenN d = 16 /\ sp < 65536 /\ dp < 65536
+  | A_unix raw => lenN raw = 216
+  end.
+(* the header Squid is expected to report for the block (UNIX addresses are not interpreted) *)
+Definition v2_expected (cmd : N) (a : v2addr) (tlvs : list (N * bytes)) : header :=
+  match a with
+  | A_inet s d sp dp =>
+      {| h_v2 := true; h_cmd := cmd; h_ignore := false; h_src := v4_prefix ++ s; h_sport := sp;
+         h_dst := v4_prefix ++ d; h_dport := dp; h_tlvs := tlvs |}
+  | A_inet6 s d sp dp =>
+      {| h_v2 := true; h_cmd := cmd; h_ignore := false; h_src := s; h_sport := sp; h_dst := d; h_dport := dp; h_tlvs := tlvs |}
+  | A_unix _ =>
+      {| h_v2 := true; h_cmd := cmd; h_ignore := false; h_src := addr_empty; h_sport := 0;
+         h_dst := addr_empty; h_dport := 0; h_tlvs := tlvs |}
+  end.
